@@ -334,8 +334,82 @@ def r15i(ck, prog):
     ck.floor("R15i", n, 1, "name conversions in the block writers")
 
 
+def r15l(ck, prog):
+    """the label of a block row is the sequence's name up to its terminator, the same string the header lines print: the loop
+    that copies msa_seq.name into the line ends at strnlen/strlen of the name or at the NUL byte only - a label cut at some
+    other byte (a blank, a punctuation character) no longer matches the Name: line / the other blocks of the same row"""
+    from ..bytedom import Sym, ev
+    from ..affine import loop_range
+    n = 0
+    for name in ("write_msa_msf", "write_msa_clu"):
+        F = prog.fn(name)
+        for a in F.body.walk():
+            if not (a.k == "BinaryOperator" and a.d["op"] == "="):
+                continue
+            r = a.kids[1].strip(casts=True)
+            if not (r.k == "ArraySubscriptExpr" and any(m.k == "MemberExpr" and m.d.get("field") == "name" and m.d.get("rec") == "msa_seq" for m in r.kids[0].walk())):
+                continue
+            loop = a.parent
+            while loop is not None and loop.k not in ("ForStmt", "WhileStmt", "DoStmt"):
+                loop = loop.parent
+            if loop is None:
+                raise AnalysisBroken("R15l: %s copies a name character outside a loop" % name)
+            n += 1
+            where = site(prog, a, "label")
+            sym = Sym(text=r.text())
+            # exits that look at the character
+            conds = []
+            c0 = loop.child("cond")
+            if c0 is not None:
+                conds.append((c0, False))
+            for i in loop.walk():
+                if i.k == "IfStmt" and any(b.k in ("BreakStmt", "ReturnStmt", "GotoStmt") for b in i.child("then").walk()) and a.within(loop):
+                    conds.append((i.child("cond"), True))
+            cut = set()
+            stops_at_nul = False
+            for c, leaves_when_true in conds:
+                if not any(sym.matches(x) for x in c.walk()):
+                    continue
+                for b in range(256):
+                    v = ev(c, sym, b if b < 128 else b - 256)
+                    if v is None:
+                        raise AnalysisBroken("R15l: exit test '%s' of the label loop in %s cannot be evaluated" % (c.text()[:50], name))
+                    out = bool(v) if leaves_when_true else not bool(v)
+                    if out and b:
+                        cut.add(b)
+                    if out and not b:
+                        stops_at_nul = True
+            if cut:
+                shown = "".join(chr(b) if 33 <= b < 127 else "\\x%02x" % b for b in sorted(cut))[:40]
+                ck.inst("R15l", where, "%s: label loop leaves at bytes %s" % (name, shown), prog.config)
+                ck.violation("R15l", "R15l/%s/label-cut" % name, where,
+                             "%s stops copying the row label at the bytes {%s}, not only at the end of the name: a block row of a sequence whose "
+                             "name contains one of them is labelled with a prefix of the name the header lines print in full, and two names "
+                             "that differ only after it get the same label" % (name, shown), prog.config)
+                continue
+            ok = stops_at_nul
+            if not ok:
+                rg = loop_range(loop)
+                if rg is not None and rg[1].is_const() and rg[1].c == 0 and len(rg[2].t) == 1 and rg[2].c == 0:
+                    var = next(iter(rg[2].t))
+                    # nearest assignment to the bound before the loop
+                    prev = None
+                    for x in F.body.walk():
+                        if x.k == "BinaryOperator" and x.d["op"] == "=" and x.kids[0].strip().text() == var and x.loc and loop.loc and x.loc[1] <= loop.loc[1] and not x.within(loop):
+                            prev = x
+                    if prev is not None:
+                        call = prev.kids[1].strip(casts=True)
+                        if call.k == "CallExpr" and call.callee in ("strnlen", "strlen") and call.args[0].strip(casts=True).text() == r.kids[0].strip(casts=True).text():
+                            ok = True
+            if not ok:
+                raise AnalysisBroken("R15l: where the label loop of %s ends is not understood" % name)
+            ck.inst("R15l", where, "%s: the label is the name up to its terminator" % name, prog.config)
+    ck.floor("R15l", n, 2, "label copies in the block writers")
+
+
 def run(ck, progs):
     describe(ck)
+    ck.rule("R15l", "the label of a block row is copied from the name up to its terminator only (strnlen/strlen bound or a NUL test): it is the string the header lines print")
     ck.rule("R15j", "the writers are reached only for an msa whose rows have been rendered (status FINAL): nothing is written from ungapped residues with alnlen 0 (= R01d)")
     ck.rule("R15h", "a header line that did not fit is written again with a size larger than what the first attempt needed")
     ck.rule("R15i", "every %s conversion of a sequence name in the MSF/Clustal writers that has a width also has a precision")
@@ -347,6 +421,7 @@ def run(ck, progs):
         ck.attempt(r15g, ck, prog)
         ck.attempt(r15h, ck, prog)
         ck.attempt(r15i, ck, prog)
+        ck.attempt(r15l, ck, prog)
         from . import c01
         ck.borrow(c01.r01d, prog, "R15j", ("R01d",))
     return ("Reaching-definition agreement inside write_msa_msf between the header's declared length, the checksum spans "
